@@ -242,8 +242,7 @@ fn serve_loop(&mut self, store: &Store, recver: &mut FrameReceiver, Tracked(hx):
 //@@ slice file=src/handlers/handler.rs fn=process_frame impl=Handler name=stamp_loop
 //@@ from: for mut output_frame in output_to_process
 //@@ through_block
-//@@ after?: for mut output_frame in
-    it:
+//@@ for_name: for mut output_frame in
 //@@ closure_spec: .get_or_insert_with( ==> -> (v: serde_json::Value) ensures serde_json::is_object(v)
 //@@ loop_spec: for mut output_frame in
     invariant
